@@ -20,6 +20,9 @@ SCHEMES = {
     "space": ["a b", "B c", "C  d".replace("  ", " "), "D e", "E f", "F g", "G h", "H i"],
     "unicode": ["Ünï", "Ωmega", "日本", "Ж", "É", "ß", "Ñ", "Ø"],
     "lower": ["abc", "bcd", "cde", "def", "efg", "fgh", "ghi", "hij"],
+    # every name is a suffix (prefix) of all later ones: includer titles that end (begin) like the included name
+    "suffix": ["n", "un", "oun", "noun", "-noun", "a-noun", "la-noun", "Ala-noun"],
+    "prefix": ["c", "ci", "cit", "cite", "cite-", "cite-b", "cite-bo", "cite-boo"],
 }
 
 
@@ -230,7 +233,7 @@ def main(run):
     chunks.append(("all", 2, list(range(16)), list(SCHEMES), True))
     m3 = list(range(512))
     for k in range(32):
-        chunks.append(("all", 3, m3[k::32], list(SCHEMES) if not q else ["plain", "lower"], True))
+        chunks.append(("all", 3, m3[k::32], list(SCHEMES) if not q else ["plain", "lower", "suffix", "prefix"], True))
     if not q:
         m4 = list(range(1 << 16))
         for k in range(256):
